@@ -66,3 +66,5 @@ SPEC = dict(
     assumptions=["pair_state_of (regenerated from hub/hub_pairing.go) is the state mapping",
                  "(a),(b): in-order delivery hypotheses fifo / in_order; reports carry an error value only with SmeStateError"],
 )
+
+SPEC["manifest"]["text"] += " A third of the unit histories are 'noisy': a second remote service of the same hub goes through handshake states of its own in between; monitor latest_state_never_notified (16): once the history has settled, the last notification received shows the state the hub answers even if an older delayed notification was dropped."
